@@ -37,6 +37,15 @@ CHECKS["C17"] = dict(
         "module name, acceptance of references in callbacks), each compared with the model inside Coq.",
    note="Trusted: Coq kernel+vm_compute; hand-written model; keys split at the first '.' by the generator; toml crate and heck; python/Rust oracle glue.",
    design="§5 C17")
+CHECKS["C11"] = dict(
+   text="Proof: Enums/Model.v transcribes Enum::new's discriminant inference and every backend's numbering scheme (C/C++/nanobind enumerators, "
+        "JS array-vs-object table, Dart index-vs-_ffi, Kotlin's EnumVariants fold); C11_values_agree shows for enums of any size with distinct "
+        "discriminants that each backend's value of variant i is the discriminant and maps back to variant i; C11_kotlin_fold, C11_contiguous_iff. "
+        "Tied to the code by one generated bridge of enums compiled with the real macro: rustc's `as isize`, compiled C/C++ drivers, generated JS "
+        "executed in node, Dart/Kotlin/nanobind tables parsed; one kernel-checked agreement goal per (enum, backend).",
+   note="Trusted: Coq kernel+vm_compute; hand transcription of the numbering schemes; python parsers emulate Dart/Kotlin/nanobind semantics "
+        "(no toolchains to execute them); gcc/g++/node/rustc as executors.",
+   design="§5 C11")
 NOT_YET = {
 }
 ALL = [f"C{i:02d}" for i in range(1, 18)]
